@@ -210,7 +210,9 @@ Definition lex_blank_node (l : lx) : res :=
 
 (* ---- lexPredicateOrLiteral ---- *)
 Definition lex_pred_or_lit (l : lx) : res :=
-  let text := map fst (rest l) in
+  (* text[1:]: the closing delimiter is searched after the opening quote (repository fix F22).  lexToken only comes
+     here after peeking a quote, so the slice cannot fail *)
+  let text := tl (map fst (rest l)) in
   let pidx := index_of (zs s_anchor) text in
   let lidx := index_of (zs s_literalType) text in
   match pidx, lidx with
@@ -218,7 +220,7 @@ Definition lex_pred_or_lit (l : lx) : res :=
   | _, _ =>
     let go_pred :=
       match pidx with
-      | Some p => Nat.ltb 0 p && match lidx with None => true | Some q => Nat.ltb p q end
+      | Some p => match lidx with None => true | Some q => Nat.ltb p q end
       | None => false
       end in
     ([], Some (if go_pred then SPredicate else SLiteral), l)
